@@ -47,7 +47,51 @@ def fact_names(f: Fact) -> Set[str]:
     for part in f[1:]:
         if isinstance(part, str):
             out |= names_in(part)
+        elif isinstance(part, frozenset):
+            for g in part:
+                out |= fact_names(g)
     return out
+
+
+def resolve_or(facts: FrozenSet[Fact]) -> FrozenSet[Fact]:
+    """Unit resolution on OR facts: if one alternative is contradicted by a live fact, the other holds."""
+    out = set(facts)
+    changed = True
+    while changed:
+        changed = False
+        for f in list(out):
+            if f[0] != "OR":
+                continue
+            for a, b in ((f[1], f[2]), (f[2], f[1])):
+                if any(contradicts(g, out) for g in a) and not b <= out:
+                    out |= b
+                    changed = True
+    return frozenset(out)
+
+
+def contradicts(g: Fact, facts) -> bool:
+    if g[0] == "EQ":
+        if ("NE", g[1], g[2]) in facts:
+            return True
+        # x == c contradicted by x == d (different constants)
+        for h in facts:
+            if h[0] == "EQ" and h[1] == g[1] and h[2] != g[2] and _lit(h[2]) and _lit(g[2]):
+                return True
+        if _lit(g[2]) and g[2] != "None" and ("EQ", g[1], "None") in facts:
+            return True
+    if g[0] == "NE" and ("EQ", g[1], g[2]) in facts:
+        return True
+    if g[0] == "T" and ("EQ", g[1], "None") in facts:
+        return True
+    return False
+
+
+def _lit(t: str) -> bool:
+    try:
+        ast.literal_eval(t)
+        return True
+    except Exception:
+        return False
 
 
 def const_int(e: ast.expr) -> Optional[int]:
@@ -94,6 +138,14 @@ class FactFlow:
             elif isinstance(c.op, ast.Or) and not truth:
                 for v in c.values:
                     out |= self.assume(v, False)
+            elif len(c.values) == 2:
+                # not (A and B)  ==  (not A) or (not B);   (A or B) true  ==  A or B
+                neg = isinstance(c.op, ast.And)
+                alts = []
+                for v in c.values:
+                    alts.append(frozenset(self.assume(v, not neg)))
+                if all(alts):
+                    out.add(("OR", alts[0], alts[1]))
             return out
         if isinstance(c, ast.Compare) and len(c.ops) == 1:
             op, a, b = c.ops[0], c.left, c.comparators[0]
@@ -288,6 +340,8 @@ class FactFlow:
                     l_, r_ = v.left, v.right
                     if isinstance(l_, ast.Call) and isinstance(l_.func, ast.Name) and l_.func.id == "len" and len(l_.args) == 1 and isinstance(r_, ast.Name) and r_.id != tn:
                         out.add(("DEFLENSUB", tn, norm(l_.args[0]), r_.id))
+                if isinstance(v, ast.Constant) and (v.value is None or isinstance(v.value, str)):
+                    out.add(("EQ", tn, repr(v.value)))
                 if isinstance(v, ast.Call) and self.nn_call is not None and self.nn_call(v):
                     out.add(("NN", tn))
                 if isinstance(v, (ast.List, ast.Dict, ast.Tuple, ast.Set, ast.JoinedStr, ast.ListComp, ast.DictComp)) or \
